@@ -98,6 +98,14 @@ func (sw *streamWrapper) handleResponses() {
 			slog.Any("err", err),
 		)
 
+		if len(sw.pendingRequests) == 0 {
+			// The pending requests were already failed by handleStreamClosed (the response raced with the
+			// stream being closed), or the response is unsolicited: there is nobody to hand it to
+			sw.failed.Store(true)
+			sw.Unlock()
+			return
+		}
+
 		var f concurrent.Future[*proto.WriteResponse]
 		f, sw.pendingRequests = sw.pendingRequests[0], sw.pendingRequests[1:]
 		sw.Unlock()
